@@ -179,7 +179,7 @@ mech("openapi-plain-scalar-retyping",
 
 mech("openapi-short-schema-names",
  "component schemas are keyed by the message's short name: same-named messages from different scopes/packages share (overwrite) one schema",
- [("C18","oas/{imported-messages,shape/nested-types-and-enums}/*",["same-named-messages-share-schema"],None)])
+ [("C18","oas/{imported-messages,shape/nested-types-and-enums,same-short-name/nested,same-short-name/top-vs-nested,same-short-name/imported}/*",["same-named-messages-share-schema"],None)])
 
 mech("openapi-ref-with-slash",
  "flattened discriminated oneof: variant schema names are built from oneof_value; a value containing '/' yields an unresolvable $ref",
@@ -201,6 +201,10 @@ mech("openapi-numeric-rules-on-string-int64",
 mech("openapi-bounds-through-float64",
  "rule bounds are converted to float64: bounds beyond 2^53 are rounded",
  [("C19","rules/numeric-*/int64+int64number/bound={gt2p53,lt-2p53}*",["schema-accepts-what-rules-reject","schema-rejects-what-rules-accept"],None)])
+
+mech("openapi-inverted-range-as-conjunction",
+ "a range rule whose upper bound lies below its lower bound means 'outside the interval' (gt_lt_exclusive etc.); the document publishes both bounds as a conjunction, which no number satisfies",
+ [("C19","rules/numeric-{gt>lt,gte>lte}/*",["schema-rejects-what-rules-accept"],None)])
 
 mech("hex-decode-error-swallowed",
  "bytes_encoding=HEX decoder ignores a hex decoding error and lets protojson base64-decode the same text: the handler receives bytes the client never sent",
